@@ -56,11 +56,11 @@ def digest(polys):
     return repr((A1.tolist(), b1.tolist(), list(map(str, ids1)), A0.tolist(), b0.tolist(), list(map(str, ids0))))
 
 
-def polyhedra(m):
-    """(A, b, ids, vars) for active True and False from a fresh object."""
+def polyhedra(m, sub=False):
+    """(A, b, ids, vars) for active True and False from a fresh object (sub: leaves as instances of a subclass of puan.variable)."""
     out = []
     for active in (True, False):
-        obj, _ = bind(m)
+        obj, _ = bind(m, leaf_subclass=sub)
         P = obj.to_ge_polyhedron(active=active)
         out.append((np.asarray(P.A, dtype=np.int64), np.asarray(P.b, dtype=np.int64), [v.id for v in P.A.variables],
                     list(P.A.variables), P))
@@ -97,7 +97,7 @@ def check_model(m, acc, fam, k, only_alpha=None):
             return
     top_id = obj.id
     try:
-        (A1, b1, ids1, vars1, P1), (A0, b0, ids0, vars0, P0) = polyhedra(m)
+        (A1, b1, ids1, vars1, P1), (A0, b0, ids0, vars0, P0) = polyhedra(m, sub=(k % 5 == 3))      # every fifth model over subclass leaves
     except BaseException as e:
         acc.violation(None, case0, {"what": "to_ge_polyhedron raised", "exc": repr(e), "model": show(m)})
         return
